@@ -161,6 +161,7 @@ def sym_chr(x):
 
 
 _enum_cache = {}
+_enum_conds = {}
 
 
 def _enum_values(cls):
@@ -181,8 +182,16 @@ def sym_enum_call(cls, value, *a, **kw):
         if issubclass(cls, enum.Flag):
             raise Unsupported('Flag enum lookup of a symbolic value (%s)' % cls.__name__)
         vals, members = _enum_values(cls)
-        conds = [value.e == v for v in vals]
-        conds.append(z3.And(*[value.e != v for v in vals]) if len(vals) > 1 else value.e != vals[0])
+        key = (cls, value.e.get_id())
+        hit = _enum_conds.get(key)
+        if hit is not None and hit[0].eq(value.e):
+            conds = hit[1]
+        else:
+            conds = [value.e == v for v in vals]
+            conds.append(z3.And(*[value.e != v for v in vals]) if len(vals) > 1 else value.e != vals[0])
+            if len(_enum_conds) > 2048:
+                _enum_conds.clear()
+            _enum_conds[key] = (value.e, conds)
         i = eng().choose(conds)
         if i < len(members):
             return members[i]
